@@ -5,6 +5,7 @@ same class, fitted on the same data, for the score of every cut the search may u
 the detectors do (np.sum(..., axis=1)) and hands the table to Coq as hexadecimal float literals; the generic
 search loop -- the same definition whose Z instance carries the theorems (Proofs/GenericZ.v) -- is evaluated on
 Coq's primitive floats and must reproduce the reported scores bit for bit and the detections exactly."""
+import math
 import numpy as np
 import pandas as pd
 
@@ -107,6 +108,46 @@ def pelt_float_stream(ctx, count):
         ctx.mismatch(f"PELT({mt['cost']}) on float data (n={mt['n']}, m={mt['min_segment_length']}, p={mt['p']}, {mt['data']}): the generic PELT loop evaluated on the binary64 "
                      f"cost table of the real scorer does not reproduce the implementation (changepoints {mt['impl_changepoints']} / scores bit for bit)", mt,
                      {"what": "float-table-mismatch", "detector": "PELT"})
+
+
+def pelt_l2_end_to_end_stream(ctx, count):
+    """END TO END in binary64 (Properties/C02_binary64_l2.v): one float column, the squared-error cost, no score table handed over -- Coq runs the kernel twin l2_cost_F and
+    the generic PELT loop on primitive floats FROM THE DATA and must obtain the implementation's changepoints and scores bit for bit; the four boolean premises of the
+    end-to-end near-optimality theorem are evaluated on the same cases (Magf / Bf: powers of two above the run's sums / the data, chosen here, CHECKED there)."""
+    from skchange.change_detectors import PELT
+    from skchange.costs import L2Cost
+    rng = ctx.rng
+    terms, metas = [], []
+    for it in range(count):
+        m = rng.choice([1, 2, 2, 3])
+        n = rng.randint(2 * m, 2 * m + 22)
+        kind = rng.choice(KINDS)
+        Xn = _data(rng, n, 1, kind)
+        d = PELT(cost=L2Cost(), min_segment_length=m, penalty_scale=rng.choice([0.0, 0.3, 1.0, 2.0])).fit(pd.DataFrame(Xn))
+        pen = float(d.penalty_)
+        scores = d.transform_scores(pd.DataFrame(Xn)).to_numpy().reshape(-1)
+        cpts = [int(v) for v in d.predict(pd.DataFrame(Xn))["ilocs"]]
+        bmax = float(np.max(np.abs(Xn)))
+        bf = 2.0 ** math.ceil(math.log2(bmax + 1e-300) + 1e-9) if bmax > 0 else 1.0
+        magf = 16.0 * (float(np.sum(Xn ** 2)) + abs(pen) * (n + 1) + 1.0)
+        magf = 2.0 ** math.ceil(math.log2(magf))
+        terms.append("{| f2_xs := %s; f2_pen := %s; f2_m := %d%%nat; f2_mag := %s; f2_b := %s; f2_cpts := %s; f2_scores := %s |}"
+                     % (flist(Xn[:, 0]), fl(pen), m, fl(magf), fl(bf), nlist(cpts), flist(scores)))
+        metas.append({"detector": "PELT", "cost": "L2Cost", "min_segment_length": m, "n": n, "p": 1, "data": kind, "X": Xn.tolist(), "penalty": pen, "Magf": magf, "Bf": bf,
+                      "impl_changepoints": cpts, "impl_scores": [float(v) for v in scores]})
+        ctx.case({"float": "pelt-l2-e2e", "it": it, "n": n, "m": m, "x0": float(Xn[0, 0])}, nontrivial=len(cpts) > 0,
+                 sample={"stream": "binary64 end-to-end PELT(L2Cost)", "n": n, "m": m, "impl_changepoints": cpts})
+        ctx.count("float_stream", "pelt-l2-end-to-end")
+    bad = coq_bad_cases(ctx.cid, HEADER_RUN, "fpl2_case", "fpl2_case_ok", terms, shard=12, tag="fpl2")
+    noprem = coq_bad_cases(ctx.cid, HEADER_RUN, "fpl2_case", "fpl2_case_premise", terms, shard=12, tag="fpl2prem")
+    ctx.notes["binary64_l2_end_to_end_premises"] = f"all four boolean premises of C02_binary64_l2_end_to_end_all_premises_boolean hold on {len(terms) - len(noprem)} of {len(terms)} cases"
+    if len(noprem) > len(terms) // 10:
+        ctx.mismatch(f"the premises of the binary64 end-to-end theorem fail on {len(noprem)} of {len(terms)} ordinary cases", {"first": metas[noprem[0]]}, {"what": "float-e2e-premise"})
+    for i in bad[:20]:
+        mt = metas[i]
+        ctx.mismatch(f"PELT(L2Cost) on one float column (n={mt['n']}, m={mt['min_segment_length']}, {mt['data']}): the binary64 kernel twin l2_cost_F followed by the generic PELT "
+                     f"loop on primitive floats does not reproduce the implementation from the DATA (changepoints {mt['impl_changepoints']} / scores bit for bit)", mt,
+                     {"what": "float-end-to-end-mismatch", "detector": "PELT"})
 
 
 def mw_float_stream(ctx, count):
